@@ -36,6 +36,12 @@ type Case struct {
 	X      int    `json:"x,omitempty"`      // casprobe: the stored value
 	Iters  int    `json:"iters,omitempty"`  // casprobe: iterations
 	Jitter uint64 `json:"jitter,omitempty"` // seed of the per-goroutine yields
+
+	// poolbulk: large Pool histories generated from a few numbers (the op lists are derived, see bulkProgs)
+	Pattern string `json:"pattern,omitempty"` // fill-drain | get-put-get | random-walk
+	N       int    `json:"n,omitempty"`       // items parked in the pool at the peak (outstanding Puts), over all goroutines
+	Threads int    `json:"threads,omitempty"`
+	Extra   int    `json:"extra,omitempty"` // Gets beyond the number of parked items when draining
 }
 
 func init() {
@@ -89,6 +95,73 @@ func randPoolOp(r *core.Rand) Op {
 	}
 }
 
+// values around every boxing / word-size threshold, negative values, extremes
+var bigVals = []int{0, -1, 1, 127, 128, 254, 255, 256, 257, -255, -256, 65535, 65536, 1<<31 - 1, 1 << 31, -(1 << 31), 1 << 32, 1<<53 + 1, 1 << 62, 1<<63 - 1, -(1 << 63)}
+
+func randAtomOpBig(r *core.Rand) Op {
+	o := randAtomOpN(r, 2)
+	pick := func() int {
+		if r.Chance(50) {
+			return bigVals[r.Intn(len(bigVals))]
+		}
+		return bigVals[r.Intn(4)+3] // a few values often, so that CompareAndSwap succeeds
+	}
+	o.A, o.B = pick(), pick()
+	if o.K == "L" {
+		o.A, o.B = 0, 0
+	} else if o.K != "C" {
+		o.B = 0
+	}
+	return o
+}
+
+// bulkProgs derives the op lists of a poolbulk case.
+func bulkProgs(cs Case) [][]Op {
+	th := cs.Threads
+	if th < 1 {
+		th = 1
+	}
+	r := core.NewRand(cs.Jitter ^ 0x5bd1e995)
+	out := make([][]Op, th)
+	for t := range out {
+		n := cs.N / th
+		if t < cs.N%th {
+			n++
+		}
+		var p []Op
+		rep := func(o Op, k int) {
+			for ; k > 0; k-- {
+				p = append(p, o)
+			}
+		}
+		switch cs.Pattern {
+		case "fill-drain":
+			rep(Op{K: "F"}, n)
+			rep(Op{K: "G"}, n+cs.Extra)
+		case "get-put-get":
+			rep(Op{K: "G"}, n)
+			rep(Op{K: "H", A: 0}, n)
+			rep(Op{K: "G"}, n+cs.Extra)
+		default: // random-walk upwards to n parked items, then drain
+			parked := 0
+			for parked < n {
+				if parked > 0 && r.Chance(30) {
+					p = append(p, Op{K: "G"})
+					parked--
+				} else if r.Chance(25) {
+					p = append(p, Op{K: "H", A: r.Intn(4)}) // gives back an item it holds, if any (does not always park one)
+				} else {
+					p = append(p, Op{K: "F"})
+					parked++
+				}
+			}
+			rep(Op{K: "G"}, n+cs.Extra)
+		}
+		out[t] = p
+	}
+	return out
+}
+
 func progs(r *core.Rand, n, maxOps int, gen func(*core.Rand) Op) [][]Op {
 	p := make([][]Op, n)
 	for t := range p {
@@ -100,6 +173,9 @@ func progs(r *core.Rand, n, maxOps int, gen func(*core.Rand) Op) [][]Op {
 }
 
 func run(c *core.Ctx) {
+	if c.Tier == "race" {
+		spinYield = 2000
+	}
 	// exhaustive: every sequential sequence of up to 3 ops over values {0,1,300} on one goroutine
 	var small []Op
 	small = append(small, Op{K: "L"})
@@ -113,7 +189,7 @@ func run(c *core.Ctx) {
 		exec(c, Case{Kind: "atomic", Progs: [][]Op{{a}}})
 		for _, b := range small {
 			exec(c, Case{Kind: "atomic", Progs: [][]Op{{a, b}}})
-			if c.Tier != "quick" {
+			if c.Tier == "thorough" || c.Tier == "search" {
 				for _, d := range small {
 					exec(c, Case{Kind: "atomic", Progs: [][]Op{{a, b, d}}})
 				}
@@ -151,14 +227,65 @@ func run(c *core.Ctx) {
 		}
 		exec(c, Case{Kind: "pool", New: c.Rng.Chance(65), Progs: progs(c.Rng, n, ops, randPoolOp), Jitter: c.Rng.Uint64()})
 	}
+	// ---- oracle-heavy, model-sampled streams (large cases: Go oracles only) ----
+	sizes := []int{15, 16, 17, 31, 32, 33, 63, 64, 65, 66, 127, 128, 129, 130, 255, 256, 257, 511, 512, 513, 1023, 1024, 1025, 2047, 2048, 2049, 4095, 4096, 4097}
+	if c.Tier == "race" {
+		sizes = sizes[:17] // the race detector is slow; up to 257
+	}
+	// Pool with many items parked at once, then drained
+	for _, n := range sizes {
+		for _, pat := range []string{"fill-drain", "get-put-get", "random-walk"} {
+			exec(c, Case{Kind: "poolbulk", New: true, Pattern: pat, N: n, Threads: 1, Extra: 1 + n%3, Jitter: c.Rng.Uint64()})
+			exec(c, Case{Kind: "poolbulk", New: true, Pattern: pat, N: n, Threads: 2 + c.Rng.Intn(3), Extra: 2, Jitter: c.Rng.Uint64()})
+		}
+		exec(c, Case{Kind: "poolbulk", New: false, Pattern: "fill-drain", N: n, Threads: 1 + n%2, Extra: 1, Jitter: c.Rng.Uint64()})
+	}
+	for i := c.N(60, 600, 300); i > 0; i-- {
+		n := c.Rng.Size(300)
+		exec(c, Case{Kind: "poolbulk", New: c.Rng.Chance(85), Pattern: []string{"fill-drain", "get-put-get", "random-walk"}[c.Rng.Intn(3)],
+			N: n, Threads: 1 + c.Rng.Intn(8), Extra: c.Rng.Intn(4), Jitter: c.Rng.Uint64()})
+	}
+	// AtomicValue: wide value range (boxing and word-size thresholds, negatives, extremes)
+	for i := c.N(200, 3000, 1500); i > 0; i-- {
+		exec(c, Case{Kind: "atomic", Progs: progs(c.Rng, 1, 12, randAtomOpBig)})
+	}
+	for i := c.N(400, 6000, 3000); i > 0; i-- {
+		n, ops := 2+c.Rng.Intn(2), 3
+		if c.Rng.Chance(40) {
+			n, ops = 2+c.Rng.Intn(7), 7
+		}
+		exec(c, Case{Kind: "atomic", Progs: progs(c.Rng, n, ops, randAtomOpBig), Jitter: c.Rng.Uint64()})
+	}
+	// AtomicValue: long sequential histories, and many goroutines with one call each
+	for _, n := range sizes {
+		p := make([]Op, n)
+		for i := range p {
+			if i%2 == 0 {
+				p[i] = randAtomOp2(c.Rng)
+			} else {
+				p[i] = randAtomOpBig(c.Rng)
+			}
+		}
+		exec(c, Case{Kind: "atomic", Progs: [][]Op{p}})
+		if n <= 60 {
+			exec(c, Case{Kind: "atomic", Progs: progs(c.Rng, n, 1, randAtomOp2), Jitter: c.Rng.Uint64()})
+		}
+	}
 }
 
 // barrier releases n goroutines at the same instant (spinning, so that they really run in parallel).
+var spinYield = 200000 // iterations a goroutine spins on the barrier before yielding
+
 func barrier(ready *int32, n int) {
 	atomic.AddInt32(ready, 1)
 	// spin without yielding for a while: yielding early lets one P run all goroutines one after the other
+	// (with more goroutines than processors, spinning only delays the ones that have not started yet)
+	y := spinYield
+	if n > runtime.GOMAXPROCS(0) {
+		y = 64
+	}
 	for i := 0; atomic.LoadInt32(ready) < int32(n); i++ {
-		if i%200000 == 199999 {
+		if i%y == y-1 {
 			runtime.Gosched()
 		}
 	}
@@ -174,6 +301,19 @@ func exec(c *core.Ctx, cs Case) {
 		execProbe(c, cs)
 	case "pool":
 		execPool(c, cs)
+	case "poolbulk":
+		c.Count("poolbulk_" + cs.Pattern)
+		switch {
+		case cs.N <= 64:
+			c.Count("poolbulk_parked_0-64")
+		case cs.N <= 257:
+			c.Count("poolbulk_parked_65-257")
+		default:
+			c.Count("poolbulk_parked_258-4097")
+		}
+		d := cs
+		d.Progs = bulkProgs(cs)
+		execPool(c, d)
 	}
 }
 
@@ -297,7 +437,7 @@ func execAtomic(c *core.Ctx, cs Case) {
 		c.Fail("AtomicValue history is not linearizable to an atomic register", histString(all))
 	}
 	// model: small histories only (the Coq side searches schedules without memoisation)
-	if n <= 3 && total <= 9 || n == 1 {
+	if n <= 3 && total <= 9 || n == 1 && total <= 40 {
 		ths := make([]string, n)
 		for t, rs := range recs {
 			calls := make([]string, len(rs))
